@@ -203,6 +203,24 @@ func (s *Sim) NewProposal(proposer int, tag string, rcBuild uint64) *Proposal {
 	return &Proposal{Block: blk, BlockHash: h, Results: res, ResultsHash: res.Hash(), RcBuild: rcBuild}
 }
 
+// WithOtherResults returns a proposal of the SAME block with different certificate results.
+func (s *Sim) WithOtherResults(p *Proposal, proposer int, tag string) *Proposal {
+	res := s.MakeResultsVar(proposer, tag)
+	return &Proposal{Block: p.Block, BlockHash: p.BlockHash, Results: res, ResultsHash: res.Hash(), RcBuild: p.RcBuild}
+}
+
+// FindProposal finds the proposal (block AND results) a certificate is about among the PROPOSE messages seen.
+func (s *Sim) FindProposal(blockHash, resultsHash []byte) *Proposal {
+	e := s.FindEnv(func(e *Env) bool {
+		return e.Kind == "PR" && e.Msg.Qc != nil && e.Msg.Qc.Block != nil && e.Msg.Qc.Results != nil &&
+			string(e.Msg.Qc.BlockHash) == string(blockHash) && string(e.Msg.Qc.ResultsHash) == string(resultsHash)
+	})
+	if e == nil {
+		return nil
+	}
+	return ProposalOf(e)
+}
+
 // ProposalOf extracts the proposal of a PROPOSE envelope.
 func ProposalOf(e *Env) *Proposal {
 	q := e.Msg.Qc
